@@ -1,15 +1,29 @@
 (** C10 — all documented spellings of an option occurrence are interchangeable.
-    PARTIAL. Proved, for every declared-options table, every position of the occurrence in the scanned
-    run and every rest of the command line: the option's OWN matcher finds an occurrence with the same
-    value and the same remaining arguments whichever of the documented spellings is used
-    (flag: -f, --force, -f=true, --force=true; valued: -o v, -o=v, -ov, --out v, --out=v, for values
-    that are non-empty and do not start with '-' (separate) or '=' (attached)); the matcher of any OTHER
-    option steps over the occurrence as a whole, finds the same thing behind it, and leaves it in
-    place in its own spelling. NOT yet proved: the lifting of this matcher-level bisimulation through
-    State.apply (DESIGN 5/T3) and the folded groupings (-ab -o v / -abov), for which the residue
-    rewriting of matchShortOpt must be followed. Both are covered on every run by comparing, on the
-    implementation itself, every line with every single re-spelling and random/maximal foldings. *)
-From MowCli Require Import Base Matchers MatcherProofs.
+    PROVED on the model for every command whose spec has no "--" atom, at the level of the whole
+    search (verdict and every bound value), for every declared-options table in which no option is
+    called "-" or "=":
+    [C10_same_reading_same_parse]: two command lines with the same clean reading — the same sequence
+    of occurrences (option, value), positionals and first "--" — are parsed alike by a compiled command:
+    same verdict, same value in every variable. A reading is clean when [RefSem.read], the reading
+    the test oracle runs, meets no unreadable token (undeclared name, empty or missing or
+    dash-prefixed value) and the line has no Q1 token (DESIGN 4.5); this is decidable ([view]).
+    [C10_spellings_read_alike]: every documented spelling of an occurrence (-f, --force, -f=true,
+    --force=true; -o v, -o=v, -ov, --out v, --out=v; [MatcherProofs.Spelled]) reads as the one
+    symbol (o, v) whatever follows; [C10_folded_read_alike]: so does any folding of adjacent short
+    options into one token (-ab -o v, -ab -ov, -abov, -abo v). [C10_respelling_changes_nothing]:
+    hence rewriting a group of tokens into another group with the same reading, anywhere before the
+    first "--", changes neither the verdict nor any binding, on every well-formed automaton without a
+    spec-level "--".
+    The proof goes through T4a ([ViewProofs.scan_reads]: the token surgery of matchLongOpt /
+    matchShortOpt, residue rewriting of folded tokens and skip-one / skip-two scan included, is the
+    removal of the first occurrence of the option from the leading run of the reading), the
+    generic group lemma and T3 ([SimProofs.apply_lockstep]: a relation respected by every matcher
+    and by the one-time drop of "--" makes the depth-first searches proceed in lockstep).
+    NOT covered by the theorem: specs with a "--" atom (there a token after the atom is a positional and
+    its spelling is data), lines with an unreadable or Q1 token. Those are covered by the check, which
+    compares every line with every single re-spelling and random/maximal foldings on the
+    implementation itself, and reports how many of its cases fall under the theorem's hypotheses. *)
+From MowCli Require Import Base Nfa Matchers Apply Values Flow Cmd View TermProofs MatcherProofs SimProofs ViewProofs ReadProofs.
 
 Theorem C10_own_matcher_cannot_tell_spellings_apart :
   forall D o c long v t1 t2 pre rest,
@@ -33,6 +47,60 @@ Theorem C10_other_matchers_step_over :
     end.
 Proof. exact respell_other. Qed.
 
+(** T4a: the scan of opt.Match on a cleanly read command line *)
+Theorem C10_scan_is_take :
+  forall D, oi_lookup D s_dd = None -> oi_lookup D [c_dash; c_eq] = None ->
+  forall one a u, Reads D a u -> forall pre,
+    match take one u with
+    | Some (v, u') => exists a', scan D one pre a = Some (v, rev_append pre a') /\ Reads D a' u'
+    | None => scan D one pre a = None
+    end.
+Proof. exact scan_reads. Qed.
+
+Theorem C10_spellings_read_alike :
+  forall D o c long v toks, named D o c long -> Spelled D o c long v toks -> Prefix D toks [VO o v].
+Proof. exact prefix_spelled. Qed.
+
+Theorem C10_folded_read_alike :
+  forall D fs us x o v,
+    Flags D fs us -> oi_lookup D [c_dash; x] = Some o -> oi_isbool D o = false ->
+    (fs <> [] -> Prefix D [c_dash :: fs] us) /\
+    (v <> [] -> noeq_head v -> Prefix D [c_dash :: fs ++ x :: v] (us ++ [VO o v])) /\
+    (dashed v = false -> Prefix D [c_dash :: fs ++ [x]; v] (us ++ [VO o v])).
+Proof.
+  intros D fs us x o v Hf Hl Hb. repeat split.
+  - intros Hne. now apply prefix_fold_flags.
+  - intros Hv Hq. now apply prefix_fold_att.
+  - intros Hd. now apply prefix_fold_sep.
+Qed.
+
+Theorem C10_respelling_changes_nothing :
+  forall D, oi_lookup D s_dd = None -> oi_lookup D [c_dash; c_eq] = None ->
+  forall g start pre up t1 t2 ut rest u,
+    wf_graph g -> (forall s t, ~ In (LDD, t) (edges g s)) -> start < nstates g ->
+    Prefix D pre up -> Prefix D t1 ut -> Prefix D t2 ut -> Reads D rest u ->
+    fsm_apply D g start (pre ++ t1 ++ rest) = fsm_apply D g start (pre ++ t2 ++ rest).
+Proof. exact respell_same_result. Qed.
+
+Theorem C10_clean_lines_read :
+  forall D, oi_lookup D s_dd = None -> oi_lookup D [c_dash; c_eq] = None ->
+  forall a u, view D a = Some u -> Reads D a u.
+Proof. exact view_reads. Qed.
+
+Theorem C10_same_reading_same_parse :
+  forall parse_float opts args spec i a1 a2 u,
+    compile opts args spec = IOk i ->
+    sane (optinfo_of opts) = true -> no_dd_graph (i_graph i) = true ->
+    view (optinfo_of opts) a1 = Some u -> view (optinfo_of opts) a2 = Some u ->
+    fsm_parse parse_float i a1 = fsm_parse parse_float i a2.
+Proof. exact same_view_same_parse. Qed.
+
+Print Assumptions C10_scan_is_take.
+Print Assumptions C10_spellings_read_alike.
+Print Assumptions C10_folded_read_alike.
+Print Assumptions C10_respelling_changes_nothing.
+Print Assumptions C10_clean_lines_read.
+Print Assumptions C10_same_reading_same_parse.
 Print Assumptions C10_own_matcher_cannot_tell_spellings_apart.
 Print Assumptions C10_own_matcher_binds_the_value.
 Print Assumptions C10_other_matchers_step_over.
@@ -64,4 +132,30 @@ Example C10_folded_example :
   = (Some ([lit "-f"; lit "x"], false, [(KO 0, lit "v")]),
      Some ([lit "-f"; lit "x"], false, [(KO 0, lit "v")]),
      Some ([lit "-ov"; lit "x"], false, [(KO 1, lit "true")])).
+Proof. vm_compute. reflexivity. Qed.
+
+(** the hypotheses of [C10_same_reading_same_parse] are met, and the conclusion is not trivial: a
+    command with a flag, a valued option and two arguments; five spellings of the same line *)
+Definition c10_decls : list decl :=
+  [mkDecl true KBool (lit "f force") [] [] false (VBool false) false;
+   mkDecl true KString (lit "o out") [] [] false (VStr []) false;
+   mkDecl false KString (lit "SRC") [] [] false (VStr []) false].
+
+Example C10_nonvacuous_whole_parse :
+  match declare (fun _ => None) (fun _ => []) c10_decls [] [] with
+  | inl (opts, args) =>
+    match compile opts args (lit "[-f] [-o] SRC") with
+    | IOk i =>
+      let D := optinfo_of opts in
+      let lines := [[lit "-f"; lit "-o"; lit "v"; lit "x"]; [lit "-fov"; lit "x"]; [lit "--force"; lit "--out=v"; lit "x"];
+                    [lit "-fo"; lit "v"; lit "x"]; [lit "-f=true"; lit "-o=v"; lit "x"]] in
+      sane D && no_dd_graph (i_graph i) &&
+      forallb (fun a => match view D a with
+                        | Some [VO 0 t; VO 1 v; VP x] => str_eqb t s_true && str_eqb v (lit "v") && str_eqb x (lit "x")
+                        | _ => false end) lines &&
+      forallb (fun a => match fsm_parse (fun _ => None) i a with PAccept _ _ => true | _ => false end) lines
+    | _ => false
+    end
+  | inr _ => false
+  end = true.
 Proof. vm_compute. reflexivity. Qed.
